@@ -13,7 +13,10 @@ import (
 	"sync"
 	"time"
 
+	"net/http/httptest"
+
 	"github.com/maruel/panicparse/v2/stack"
+	"github.com/maruel/panicparse/v2/stack/webstack"
 )
 
 const dump = `panic: boom
@@ -125,6 +128,26 @@ func main() {
 				if got := render(s, l); got != w0 {
 					select {
 					case bad <- fmt.Sprintf("worker %d level %d", w, l):
+					default:
+					}
+				}
+			}
+		}(w)
+	}
+	// the web handler under concurrent requests with different parameters while goroutines come and go
+	for w := 0; w < 4; w++ {
+		wg.Add(1)
+		go func(w int) {
+			defer wg.Done()
+			qs := []string{"augment=0", "augment=1", "similarity=anyvalue&augment=0", "maxmem=2097152"}
+			for k := 0; time.Now().Before(deadline); k++ {
+				go func() { time.Sleep(time.Millisecond) }()
+				req := httptest.NewRequest("GET", "/debug?"+qs[(w+k)%len(qs)], nil)
+				rec := httptest.NewRecorder()
+				webstack.SnapshotHandler(rec, req)
+				if rec.Code != 200 {
+					select {
+					case bad <- fmt.Sprintf("handler status %d for %s", rec.Code, qs[(w+k)%len(qs)]):
 					default:
 					}
 				}
